@@ -904,9 +904,17 @@ fn infer_inner(rng: &mut Rng, tree: &Tree, cfg: &InferCfg, depth: u32, root: boo
                         // integer-typed keys: rejected with and without the Spanned wrapper alike
                         if cfg.spanned > 0 { KeyTy::SpannedI64 } else { KeyTy::I64 }
                     } else if cfg.spanned > 0 && rng.chance(1, 2) {
-                        if rng.chance(1, 3) { KeyTy::NewtypeSpanned("Located".into()) } else { KeyTy::SpannedStr }
+                        match rng.below(6) {
+                            0 | 1 => KeyTy::NewtypeSpanned("Located".into()),
+                            // Spanned around a key type other than String
+                            2 => KeyTy::SpannedKey(Box::new(KeyTy::NewtypeStr("KeyName".into()))),
+                            3 if kvs.len() <= 6 => KeyTy::SpannedKey(Box::new(KeyTy::UnitVariant("KeyE".into(), kvs.iter().map(|(k, _)| k.clone()).collect()))),
+                            _ => KeyTy::SpannedStr,
+                        }
                     } else if rng.chance(1, 8) {
                         KeyTy::NewtypeStr("KeyName".into())
+                    } else if kvs.len() <= 6 && rng.chance(1, 10) {
+                        KeyTy::UnitVariant("KeyE".into(), kvs.iter().map(|(k, _)| k.clone()).collect())
                     } else {
                         KeyTy::Str
                     };
